@@ -311,14 +311,14 @@ def run(ctx):
     ctx.exhaustive = True
     if ctx.quick:
         ctx.mc('MC_Sync', 'MC_Sync_quick.cfg')
-        s2c(ctx, report, ctx.generate('MC_Sync', 'MC_Sync_gen_quick.cfg'), 3000)
-        s2c(ctx, report, ctx.generate('MC_Sync', 'MC_Sync_gen_frames.cfg'), 1200)
-        c2s(ctx, report, 500)
+        s2c(ctx, report, ctx.generate('MC_Sync', 'MC_Sync_gen_quick.cfg'), 2500)
+        s2c(ctx, report, ctx.generate('MC_Sync', 'MC_Sync_gen_frames.cfg'), 1000)
+        c2s(ctx, report, 450)
     else:
         ctx.mc('MC_Sync', 'MC_Sync_thorough.cfg')
-        s2c(ctx, report, ctx.generate('MC_Sync', 'MC_Sync_gen_quick.cfg'), 0)
+        s2c(ctx, report, ctx.generate('MC_Sync', 'MC_Sync_gen_quick.cfg'), 25000)
         s2c(ctx, report, ctx.generate('MC_Sync', 'MC_Sync_gen_frames.cfg'), 0)
-        s2c(ctx, report, ctx.generate('MC_Sync', 'MC_Sync_gen_thorough.cfg'), 60000)
+        s2c(ctx, report, ctx.generate('MC_Sync', 'MC_Sync_gen_thorough.cfg'), 30000)
         c2s(ctx, report, 6000)
     ctx.extra['violation_signatures'] = report.summary()
     ctx.assumptions += [
